@@ -33,6 +33,11 @@ GROUPS = [
     ("+c04", r".", ["C04"]),
     ("+c05b", r".", ["C05"]),
     ("+c06b", r".", ["C06"]),
+    # Labelled(as_context) reads the positions recorded with emitted errors (secondary_errors_since): every emit site serves C17
+    ("+c17", r"^combinator::Validate\[|^recovery::", ["C17"]),
+    # the nested run is `then_ignore(inner, end())`
+    # ... and the documented idiom extracts the inner input (and its end-of-input span) with select!/select_ref!
+    ("+c16", r"^primitive::End\[Parser\]|^combinator::ThenIgnore\[Parser\]|^primitive::(Select|SelectRef)\[Parser\]", ["C16"]),
     ("+c05", r"^recovery::|^combinator::(SeparatedBy|Repeated)\[|^combinator::Validate\[|^combinator::NestedIn\[", ["C05"]),
     ("+c20", r"^recovery::|^combinator::(Repeated|SeparatedBy|Collect|CollectExactly|Foldl|FoldlWith|Foldr|FoldrWith)\[Parser\]::go|^pratt::Pratt::pratt_go|^combinator::Not\[", ["C20"]),
     ("+c06", r"^primitive::(End|Just|OneOf|NoneOf|Any|AnyRef|Select|SelectRef|Custom)\[|^combinator::(Filter|TryMap|TryMapWith|Not)\[", ["C06"]),
